@@ -274,7 +274,7 @@ func genC19(rt *rapid.T, h *harness.H) interface{} {
 			s.Op = "run"
 			s.Mode = d.Pick(3, "mode")
 			if s.Mode == 2 && c.Progs[s.Prog].Contraction {
-				s.Mode = 1 // N6
+				s.Mode = 1 // the non-polarized outcome of programs with contraction is one of several admitted ones: no model to compare with
 			}
 			s.Monitor = d.Bool("monitor")
 			if d.Bool("yield") {
